@@ -8,6 +8,7 @@ import io
 import itertools
 import math
 import os
+import shutil
 import tempfile
 import textwrap
 
@@ -550,10 +551,63 @@ def units(tier, seed):
     for modn, clsn in ORDER_CLASSES[:4 if tier == 'quick' else None]:
         us.append({'harness': 'order', 'module': modn, 'cls': clsn, 'seed': seed})
     us.append({'harness': 'client'})
+    us.append({'harness': 'client-real-files', 'H': 2, 'caching': True})      # duplicates / permutations through the client cache (last occurrence governs)
+    us.append({'harness': 'line-endings'})
     return us
 
 
+# ---- line-ending styles on real files -------------------------------------------------------------------------------------------
+def run_line_endings(unit):
+    """the real read_input_file on real files: the same lines terminated by LF, CRLF, CR, mixed, with and without a final terminator
+    (exhaustive over the terminator assignments of a 4-line file): the dictionary the simulator is given must be the same."""
+    cfg = {'harness': 'line-endings'}
+    log = harness.UnitLog(cfg)
+    from geophires_x.GeoPHIRESUtils import read_input_file
+
+    class L:
+        def __getattr__(self, k):
+            return lambda *a, **kw: None
+    lines = ['# economics block', 'Plant Lifetime, 25', 'Economic Model, 1, -- a remark', 'Gradients, 50, 40']
+    d = tempfile.mkdtemp(prefix='symx_c12le_')
+
+    def parse(text):
+        pth = os.path.join(d, 'in.txt')
+        with open(pth, 'w', newline='') as f:
+            f.write(text)
+        out = {}
+        read_input_file(out, logger=L(), input_file_name=pth)
+        return {k: (str(v.sValue), str(getattr(v, 'raw_entry', '')).rstrip('\r\n')) for k, v in out.items()}
+    try:
+        ref = parse('\n'.join(lines) + '\n')
+        terms = ['\n', '\r\n', '\r']
+        for combo in itertools.product(terms, repeat=len(lines) - 1):
+            for last in ('', '\n', '\r\n', '\r'):
+                text = ''.join(ln + t for ln, t in zip(lines, list(combo) + [last]))
+                log['paths'] += 1
+                log['reachable'] += 1
+                log['obligations'] += 1
+                got = parse(text)
+                if got == ref:
+                    log['discharged'] += 1
+                else:
+                    log['cex'].append({'obligation': 'the parameters read do not depend on the line-ending style (LF, CRLF, CR, mixed, missing final terminator)', 'finding': None, 'config': cfg,
+                                       'reproduced': True, 'inputs': {'file text': repr(text)}, 'detail': {'read': {k: v[0] for k, v in got.items()}, 'with LF': {k: v[0] for k, v in ref.items()}},
+                                       'how': 'exhaustive enumeration of terminator assignments on a real file with the real reader', 'attempts': []})
+    finally:
+        shutil.rmtree(d, ignore_errors=True)
+    log['samples'].append({'lines': lines, 'terminators': ['LF', 'CRLF', 'CR'], 'assignments': 3 ** (len(lines) - 1) * 4})
+    log.d['exhaustive'] = True
+    yield log.result()
+
+
 def run_unit(unit):
+    if unit['harness'] == 'client-real-files':
+        from . import c08files
+        yield from c08files.run_unit(unit)
+        return
+    if unit['harness'] == 'line-endings':
+        yield from run_line_endings(unit)
+        return
     h = unit['harness']
     if h == 'tokenizer':
         yield from run_tokenizer(unit)
